@@ -1337,6 +1337,36 @@ pub fn spaces(tier: Tier) -> Vec<Space> {
                 }
             };
             check_tx(acc, case, &t, json!({"amount": x, "place": SAT_PLACES[c[1] as usize]}), true);
+            // "64-bit values survive unchanged" is also a statement about the documents: an independent reader (serde_json's
+            // generic Value here; for CBOR the RFC 8949 head of an unsigned integer) must find the amount in them as the
+            // unsigned number it is - not as a wrapped negative, a float or a string that only this library maps back
+            acc.transitions += 2;
+            fn has_u64(v: &Value, x: u64) -> bool {
+                match v {
+                    Value::Number(n) => n.as_u64() == Some(x),
+                    Value::Array(a) => a.iter().any(|e| has_u64(e, x)),
+                    Value::Object(o) => o.values().any(|e| has_u64(e, x)),
+                    _ => false,
+                }
+            }
+            let input = || json!({"amount": x, "place": SAT_PLACES[c[1] as usize]});
+            match guard(|| t.to_json_string()) {
+                Ok(Ok(text)) => match serde_json::from_str::<Value>(&text) {
+                    Ok(doc) if has_u64(&doc, x) => {}
+                    Ok(_) => acc.violate("C18/json/kind=document-does-not-carry-the-64-bit-amount", case.idx, case.json(input()), format!("no number equal to {} in {}", x, if text.len() > 300 { &text[..300] } else { &text })),
+                    Err(e) => acc.violate("C18/json/kind=document-is-not-json", case.idx, case.json(input()), e.to_string()),
+                },
+                _ => {} // reported by the round-trip leg
+            }
+            if x >= (1u64 << 32) {
+                if let Ok(Ok(cb)) = guard(|| t.to_compact_bytes()) {
+                    let mut head = vec![0x1bu8];
+                    head.extend_from_slice(&x.to_be_bytes());
+                    if !cb.windows(9).any(|w| w == &head[..]) {
+                        acc.violate("C18/cbor/kind=document-does-not-carry-the-64-bit-amount", case.idx, case.json(input()), format!("no unsigned integer head 1b{:016x} in {}", x, hxl(&cb)));
+                    }
+                }
+            }
         }));
     }
 
